@@ -207,6 +207,13 @@ def _reference(d, K, F, T, kind):
         ref = rng.normal(size=(K, F, T))
     else:
         raise AssertionError(kind)
+    # rows that are distinct but close relative to their norm (a nearly uniform
+    # posterior 1/K +- 1e-4), in double or single precision - one case of five
+    aux = d.aux(151)
+    if aux.integers(0, 5) == 0:
+        ref = 1.0 / K + 1e-4 * aux.normal(size=(K, F, T))
+        if aux.integers(0, 2):
+            ref = ref.astype(np.float32)
     return ref
 
 
@@ -229,6 +236,14 @@ def _rows_distinct(ref, tol=1e-6):
 def _roundtrip_case(ctx, ref, perms, metric, algorithm, flatten):
     pa = _pa()
     K, F, T = ref.shape
+    r64 = np.asarray(ref, dtype=np.float64)
+    if metric != 'euclidean' and \
+            np.max(np.abs(r64 - r64.mean())) <= 1e-2 * max(abs(float(r64.mean())), 1e-300):
+        # inner-product scores of nearly equal rows differ by the square of the
+        # row distance (1e-8 relative): below the rounding of the inner
+        # products in single precision, near it in double.  The distance
+        # based metric resolves such rows and is judged.
+        raise Borderline('cos / multiply scores of nearly equal rows')
     mixed = np.empty_like(ref)
     for f in range(F):
         mixed[:, f] = ref[perms[f], f]
